@@ -70,7 +70,7 @@ PLAN = {
                 quick=[("c06", "release", 40000), ("c06gen", "release", 15000)],
                 thorough=[("c06", "release", 2000000), ("c06", "checked", 200000), ("c06gen", "release", 800000), ("c06gen", "checked", 100000)],
                 assumptions=["no assumption about the position after a failed seek (the history re-seeks)"]),
-    "C08": dict(level="exploration",
+    "C08": dict(level="exploration", supplement="sysfault",
                 rule=("each run fixes (signal, options), takes the one-call sample-writer encode on a perfect sink as golden, and "
                       "encodes variants on their own simulated disks: every two-way split point of the input (units: samples, bytes "
                       "or PCM frames by front-end), drawn multi-way chunkings with empty writes through all four front-ends, "
